@@ -152,7 +152,9 @@ func stabilityPhase(r *verifkit.Run) {
 		if bad {
 			continue
 		}
-		if q%16 == 5 {
+		if q%16 == 5 && (q < 20000 || q%512 == 5) {
+			// a full collection with the sign-bytes index on the heap takes a few hundred
+			// milliseconds: every 16th sequence of the first 20000, every 512th after that
 			runtime.GC()
 		}
 		if q%8 == 3 { // a burst of further calls of all three helpers
